@@ -27,6 +27,8 @@ func runC04(w *World) *Result {
 	StaleListRule(w, r, "R-C04-once")
 	r.Rule("R-C04-srcorder", "slots evaluated in a fixed order by the driver hold expressions parsed in that order", 12)
 	c04SrcOrder(w, r)
+	r.Rule("R-C04-eager", "the branches of an if-chain hold the block parser's results: no later branch is nested into an earlier one (all conditions are evaluated with the chain)", 3)
+	c04Bodies(w, r, "R-C04-eager")
 	for _, role := range []string{"bash", "batch"} {
 		b, err := BuildBackend(w, role)
 		if err != nil {
@@ -404,5 +406,102 @@ func c04SrcOrder(w *World, r *Result) {
 	}
 	if n == 0 {
 		r.Bad(rule, "srcorder:none", "-", "no construction with driver-ordered slots found")
+	}
+}
+
+// c04Bodies: the bodies of the branches of an if-chain are what the block parser returned.
+// A body assembled by hand from the result of another statement parser (an else-if parsed
+// as an if nested in the else branch) moves the conditions of the later branches into the
+// body of the earlier else: they are evaluated only when the earlier conditions failed,
+// whereas the chain evaluates all conditions before any branch runs.
+func c04Bodies(w *World, r *Result, rule string) {
+	ppkg := w.Pkgs["parser"].Types
+	isStmtList := func(t types.Type) bool {
+		sl, ok := t.Underlying().(*types.Slice)
+		return ok && isNamed(sl.Elem(), "Statement")
+	}
+	n := 0
+	perKey := map[string]int{}
+	for _, fn := range w.Funcs("parser") {
+		for _, b := range fn.Blocks {
+			for _, ins := range b.Instrs {
+				st, ok := ins.(*ssa.Store)
+				if !ok {
+					continue
+				}
+				fa, ok := st.Addr.(*ssa.FieldAddr)
+				if !ok || !isStmtList(st.Val.Type()) {
+					continue
+				}
+				pt, ok := fa.X.Type().Underlying().(*types.Pointer)
+				if !ok {
+					continue
+				}
+				named, ok := pt.Elem().(*types.Named)
+				if !ok || named.Obj().Pkg() != ppkg {
+					continue
+				}
+				node := named.Obj().Name()
+				if node != "Else" && node != "IfBranch" {
+					continue
+				}
+				n++
+				base := fmt.Sprintf("body:%s@%s", node, FuncName(fn))
+				perKey[base]++
+				key := base
+				if perKey[base] > 1 {
+					key = fmt.Sprintf("%s#%d", base, perKey[base])
+				}
+				bad := ""
+				seen := map[ssa.Value]bool{}
+				var back func(v ssa.Value, d int)
+				back = func(v ssa.Value, d int) {
+					if d > 5 || seen[v] || bad != "" {
+						return
+					}
+					seen[v] = true
+					switch x := v.(type) {
+					case *ssa.Phi:
+						for _, e := range x.Edges {
+							back(e, d+1)
+						}
+					case *ssa.Extract:
+						call, ok := x.Tuple.(*ssa.Call)
+						if !ok || call.Call.StaticCallee() == nil || !isStmtList(call.Call.StaticCallee().Signature.Results().At(0).Type()) {
+							bad = "a value that is not the result of the block parser"
+						}
+					case *ssa.Call:
+						if bi, ok := x.Call.Value.(*ssa.Builtin); ok && bi.Name() == "append" {
+							bad = "a list assembled with append"
+						} else if x.Call.StaticCallee() == nil || !isStmtList(x.Type()) {
+							bad = "the result of " + calleeName(x)
+						}
+					case *ssa.Slice:
+						// the empty literal is fine (placeholder branch); anything with elements is hand-built
+						empty := false
+						if pt, ok := x.X.Type().Underlying().(*types.Pointer); ok {
+							if at, ok := pt.Elem().Underlying().(*types.Array); ok && at.Len() == 0 {
+								empty = true
+							}
+						}
+						if !empty {
+							bad = "a list literal built by hand"
+						}
+					case *ssa.Const:
+					default:
+						bad = fmt.Sprintf("a %T", v)
+					}
+				}
+				back(st.Val, 0)
+				if bad == "" {
+					r.Ok(rule, key, w.Pos(st.Pos()), "the branch body is the statement list returned by the block parser")
+				} else {
+					r.Bad(rule, key, w.Pos(st.Pos()), "the body of "+node+" is "+bad+": a construct parsed elsewhere (e.g. a following else-if parsed as a nested if) is tucked into the branch, so its conditions are evaluated lazily instead of with the chain")
+				}
+			}
+		}
+	}
+	if n == 0 {
+		r.Bad(rule, "body:none", "-", "no branch body store found in the parser")
 	}
 }
